@@ -834,7 +834,7 @@ fn passes(ctx: &Ctx) -> Vec<Pass> {
     vec![
         Pass { mode: Mode::Strict, env: Env::Zero, depth_small: if q { 10 } else { 16 }, depth_big: 0 },
         Pass { mode: Mode::Baseline, env: Env::Zero, depth_small: if q { 8 } else { 10 }, depth_big: if q { 6 } else { 8 } },
-        Pass { mode: Mode::Tolerant, env: Env::Zero, depth_small: if q { 10 } else { 16 }, depth_big: if q { 10 } else { 13 } },
+        Pass { mode: Mode::Tolerant, env: Env::Zero, depth_small: if q { 10 } else { 15 }, depth_big: if q { 9 } else { 11 } },
         Pass { mode: Mode::Tolerant, env: Env::Table, depth_small: if q { 8 } else { 12 }, depth_big: if q { 6 } else { 8 } },
     ]
 }
@@ -855,7 +855,7 @@ impl Check for C34 {
             "seed construction histories (up to 8185 calls) evaluate the drain oracle only next to trunk boundaries and at the end",
         ];
         s.cap_quick_s = 90;
-        s.cap_thorough_s = 1500;
+        s.cap_thorough_s = 1100;
         vec![s]
     }
 
